@@ -7,6 +7,7 @@ CONSTANTS
   ArgVals = 1
   TypeIds = {"V_u8_u8", "V_u64_u32", "V_bool_u8", "S_u8", "S_u16", "X_u8_u8", "X_vu8_u8", "X_vi32_u16", "X_s8_u16", "X_ue1_u8", "US2", "US4", "UE1"}
   LMults = {0, 1, 3}
+  BigInit = FALSE
   FollowUps = TRUE
 INVARIANTS InvRoundTrip InvSize InvLenCap InvFlexShape
 CHECK_DEADLOCK FALSE
